@@ -201,7 +201,11 @@ class Ed25519Key(PKey):
         return m
 
     def verify_ssh_sig(self, data, msg):
-        if msg.get_text() != self.name:
+        try:
+            if msg.get_text() != self.name:
+                return False
+        except UnicodeDecodeError:
+            # an algorithm name that is not even text names no algorithm
             return False
 
         # A key loaded from a private key file only has a signing key; use its
